@@ -170,7 +170,7 @@ func (s *cfState) fileReads() string {
 }
 
 // build the nested update document from path=token pairs
-func cfDoc(pairs string) map[string]any {
+func cfDoc(pairs string, cur map[string]any) map[string]any {
 	doc := map[string]any{}
 	if pairs == "-" {
 		return doc
@@ -206,6 +206,15 @@ func cfDoc(pairs string) map[string]any {
 			v = nil
 		case tok == "o":
 			v = map[string]any{"x": 1.0}
+		case tok == "cur":
+			// what a client posts back: the value the server's own JSON reports for this setting
+			var c any = cur
+			for _, seg := range path {
+				if m, ok := c.(map[string]any); ok {
+					c = m[seg]
+				}
+			}
+			v = c
 		}
 		m[path[len(path)-1]] = v
 	}
@@ -270,7 +279,12 @@ func init() {
 					notes := s.settle()
 					return fmt.Sprintf("notes=[%s] %s", strings.Join(notes, " "), state())
 				case "update": // pairs persistLimit(0 = no fault, n = RLIMIT_FSIZE n bytes)
-					doc := cfDoc(f[2])
+					cur := map[string]any{}
+					if strings.Contains(f[2], "=cur") {
+						js, _ := json.Marshal(s.cfg)
+						json.Unmarshal(js, &cur)
+					}
+					doc := cfDoc(f[2], cur)
 					lim, _ := strconv.Atoi(f[3])
 					undo := func() {}
 					if lim > 0 {
@@ -381,6 +395,9 @@ func genConfig(c runCfg, o *Out, emit func(...string)) {
 	}
 	for t := 0; t < n; t++ {
 		emit("cf", "reset")
+		// a "dashboard session": every update posts one of two sections back in full, a few fields edited
+		dash := r.Chance(35)
+		dashSecs := []string{strings.SplitN(props[r.Intn(len(props))].name, ".", 2)[0], strings.SplitN(props[r.Intn(len(props))].name, ".", 2)[0]}
 		for i := 0; i < 3+r.Intn(8); i++ {
 			switch x := r.Intn(100); {
 			case x < 18:
@@ -406,6 +423,36 @@ func genConfig(c runCfg, o *Out, emit func(...string)) {
 						tok = pick(illTyped[p.typ])
 					}
 					pairs = append(pairs, p.name+"="+tok)
+				}
+				if dash || r.Chance(10) {
+					// a client posts a whole section back with a few fields edited (possibly badly)
+					sec := strings.SplitN(props[r.Intn(len(props))].name, ".", 2)[0]
+					if dash {
+						sec = dashSecs[r.Intn(2)]
+					}
+					pairs = pairs[:0]
+					edits := 1 + r.Intn(3)
+					var inSec []cfProp
+					for _, p := range props {
+						if strings.HasPrefix(p.name, sec+".") {
+							inSec = append(inSec, p)
+						}
+					}
+					edited := map[int]bool{}
+					for e := 0; e < edits; e++ {
+						edited[r.Intn(len(inSec))] = true
+					}
+					for i, p := range inSec {
+						tok := "cur"
+						if edited[i] {
+							if r.Chance(60) {
+								tok = pick(valid[p.typ])
+							} else {
+								tok = pick(illTyped[p.typ])
+							}
+						}
+						pairs = append(pairs, p.name+"="+tok)
+					}
 				}
 				if r.Chance(12) {
 					pairs = append(pairs, []string{"cache.nosuch=n:1", "nosection.x=b:1"}[r.Intn(2)])
